@@ -80,9 +80,9 @@ def measures (v : View) (dens : List (Option Nat × Option Nat × Bool)) (mats :
     ("incidence_matrix", Json.arr (mats.map (fun (o, _, _) =>
         Json.mkObj [("rows", idsToJson v.nodes), ("cols", idsToJson (eidsOf v o)), ("M", matJ (incMatrix v o))])).toArray),
     ("adjacency_matrix", Json.arr (mats.map (fun (o, s, w) =>
-        Json.mkObj [("rows", idsToJson v.nodes), ("M", matJ (adjMatrix v o s w))])).toArray),
+        Json.mkObj [("rows", idsToJson v.nodes), ("ne", natJson (eidsOf v o).length), ("M", matJ (adjMatrix v o s w))])).toArray),
     ("laplacian", Json.arr (laps.map (fun d =>
-        Json.mkObj [("rows", idsToJson v.nodes), ("M", matJ (lapMatrix v d))])).toArray)
+        Json.mkObj [("rows", idsToJson v.nodes), ("ne", natJson (eidsOf v (some d)).length), ("M", matJ (lapMatrix v d))])).toArray)
   ]
 
 def finMap? (j : Json) (k : String) : Option (PyId → PyId) := do
